@@ -7,6 +7,7 @@ From TskVerif Require Import C01.SpanProofs.
 From TskVerif Require Import C01.SweepProofs.
 From TskVerif Require Import C01.TreeProofs.
 From TskVerif Require Import C01.IndexProofs.
+From TskVerif Require Import C01.QueryProofs.
 From TskVerif Require Import C01.Theorems.
 Import ListNotations.
 Open Scope Z_scope.
@@ -103,3 +104,39 @@ Theorem load_breakpoints_partition : forall L ns es q,
   forall x, In x (q_bps q) <->
     x = 0 \/ x = L \/ exists e, In e es /\ (x = eleft e \/ x = eright e).
 Proof. exact load_breakpoints_lemma. Qed.
+
+(* (d, counts) in every tree of the sweep, for every node u:
+     num_samples[u]         = [u is a sample]         + sum of num_samples[c] over the children c of u
+     num_tracked_samples[u] = [u is a tracked sample] + sum of num_tracked_samples[c] over children
+   where the children of u are the nodes c with parent[c] = u (and parent[] is parent_at by
+   sweep_parent_exact); since parents are strictly older this determines the counts uniquely as
+   the number of (tracked) samples in the subtree of u. *)
+Theorem counts_local : forall L ns es Ins Rem q,
+  valid_edgesb L ns es = true -> index_sorted es Ins Rem -> mk_tseq L ns es Ins Rem = Ok q ->
+  forall o k t, tree_at_index q o k = Ok t ->
+  forall u, 0 <= u < zlen ns ->
+    exists a b,
+      get (t_ns t) u = Ok a /\ a = ind (q_samples q) u + csum (t_parent t) (t_ns t) u /\
+      get (t_nt t) u = Ok b /\ b = ind (o_tracked o) u + csum (t_parent t) (t_nt t) u.
+Proof. exact counts_local_lemma. Qed.
+
+(* (d, queries) in every tree of the sweep: every node has a finite ancestor path (parents are
+   real nodes and strictly older, so no cycles); tsk_tree_get_depth returns the number of proper
+   ancestors (-1 for the virtual root); tsk_tree_is_descendant(u, v) is true iff v is on the
+   path from u upwards; tsk_tree_get_mrca returns the youngest common element of the two
+   ancestor paths, or NULL iff there is none. *)
+Theorem queries_correct : forall L ns es Ins Rem q,
+  valid_edgesb L ns es = true -> index_sorted es Ins Rem -> mk_tseq L ns es Ins Rem = Ok q ->
+  forall o k t, tree_at_index q o k = Ok t ->
+  let N := zlen ns in let P := t_parent t in
+  (forall u, 0 <= u <= N -> exists l, path P u l) /\
+  (forall u p, get P u = Ok p -> p <> NULL -> 0 <= u < N /\ 0 <= p < N /\ tmq q u < tmq q p) /\
+  (forall u r, depth N t u = Ok r ->
+     (u = N /\ r = -1) \/ (u <> N /\ exists l, path P u (u :: l) /\ r = zlen l)) /\
+  (forall u v b l, 0 <= u <= N -> 0 <= v <= N -> path P u l ->
+     is_descendant N t u v = Ok b -> (b = true <-> In v l)) /\
+  (forall u v m lu lv, 0 <= u < N -> 0 <= v < N -> path P u lu -> path P v lv ->
+     mrca q t u v = Ok m ->
+     (m <> NULL -> In m lu /\ In m lv /\ forall a, In a lu -> In a lv -> tmq q m <= tmq q a) /\
+     (m = NULL -> forall a, In a lu -> ~ In a lv)).
+Proof. exact queries_correct_lemma. Qed.
